@@ -367,6 +367,10 @@ func judgeEnforce(run *vlib.Run, o *vlib.Oracles, kc *kernelCase, st *kernelStat
 				run.Violation("probe-killed-unexpectedly", what+fmt.Sprintf(", but the child did not survive the probe (exit=%d signaled=%v sig=%v)", res.ExitCode, res.Signaled, res.Signal), replay)
 				return true
 			}
+			if kc.cc.PauseBetweenProbes && l["tid"] != nil && jsonU64(l["tid"]) != jsonU64(loaded["tid"]) {
+				run.Violation("caller-moved-off-its-locked-thread", what+fmt.Sprintf(": the calling goroutine had locked its OS thread %d before LoadFilter; after the load it runs on thread %d (its lock is gone), where the filter of a load without thread-sync is not in force", jsonU64(loaded["tid"]), jsonU64(l["tid"])), replay)
+				return true
+			}
 			errno := uint32(jsonU64(l["errno"]))
 			wantErrno := uint32(0)
 			if exp.Class == vlib.OutErrno {
@@ -562,6 +566,10 @@ func c08() {
 			kc.cc.Flags &^= 1
 			kc.cc.SiblingLoads = 1 + (i/9)%3
 			run.Count("children_with_sibling_threads_loading_concurrently", 1)
+		}
+		if i%6 == 4 && !kc.cc.KillThreadProbe {
+			kc.cc.PauseBetweenProbes = true
+			run.Count("children_pausing_between_probes", 1)
 		}
 		kc.cc.Env = vlib.RuntimeKnobs[(i/3)%len(vlib.RuntimeKnobs)]
 		if i%5 == 1 {
